@@ -322,7 +322,7 @@ func (l *Lexer) readNumber(ch byte) (token.Type, string) {
 	if l.peekChar() == '.' {
 		if dotSeen {
 			// Stop if we see another dot
-			return t, string(l.input[pos : l.pos-1])
+			return t, string(l.input[pos:l.pos])
 		}
 		t = token.FLOAT
 		l.pos++
@@ -348,6 +348,7 @@ func (l *Lexer) readNumber(ch byte) (token.Type, string) {
 	}
 	if !isDigit(l.peekChar()) {
 		// Invalid exponent, stop here
+		l.pos = errPos // don't swallow the 'e' (and sign): they are lexed as the next token(s).
 		return t, string(l.input[pos:errPos])
 	}
 	t = token.FLOAT
